@@ -279,11 +279,11 @@ impl Property for C17 {
     }
     fn rule(&self, tier: Tier) -> String {
         format!(
-            "every configuration of 1..=2 distinct entries, and every configuration of 3 entries over {}, whose keys are (1..3 segments from {{a, ab, b, aß, <any>}}) ++ (x | y.z) = 310 candidate keys, x include order {{before node creation, after, first entry before and the rest after}}, \
+            "every configuration of 1..=2 distinct entries, and every configuration of 3 entries over {}, whose keys are (1..3 segments from {{a, ab, b, aß, <any>}}) ++ (x | y.z) = 310 candidate keys, in every file order of the entries, x include order {{before node creation, after, first entry before and the rest after}}, \
              on a Sim with the module tree {:?}; oracle: reference matcher from the statement (props_keys() read before any property access == names of matching entries; value is the value of a matching entry; no panic); \
              type rule: every sequence of 1..={} typed reads/writes over {{i64,u8,String,bool,f64}} on a property configured as 5 / hello / true / 1.5 / absent; \
              non-trivial = configuration in which at least one entry addresses at least one module",
-            tier.pick("the 60 keys with at most 2 path segments", "all keys"),
+            tier.pick("key triples with at most one key of three path segments", "all keys"),
             MODULE_PATHS,
             tier.pick(3, 4)
         )
@@ -313,23 +313,40 @@ impl Property for C17 {
                 combos.push(vec![i, j]);
                 // triples: all keys (thorough) / keys with at most 2 path segments (quick)
                 let small = |k: usize| keys[k].len() - if keys[k].ends_with(&["y", "z"]) { 2 } else { 1 } <= 2;
-                if maxe >= 3 || (small(i) && small(j)) {
-                    for l in (j + 1)..nk {
-                        if maxe >= 3 || small(l) {
-                            combos.push(vec![i, j, l]);
-                        }
+                for l in (j + 1)..nk {
+                    // quick: at most one of the three keys has three path segments
+                    let deep = usize::from(!small(i)) + usize::from(!small(j)) + usize::from(!small(l));
+                    if maxe >= 3 || deep <= 1 {
+                        combos.push(vec![i, j, l]);
                     }
                 }
             }
         }
-        for combo in &combos {
+        // the order of the entries in the file matters to the implementation (insertion-ordered
+        // mapping): every permutation of every set is a configuration of its own
+        let mut ordered: Vec<(Vec<usize>, bool)> = vec![];
+        for c in &combos {
+            match c.len() {
+                1 => ordered.push((c.clone(), true)),
+                2 => {
+                    ordered.push((c.clone(), true));
+                    ordered.push((vec![c[1], c[0]], true));
+                }
+                _ => {
+                    for (pi, p) in [[0, 1, 2], [0, 2, 1], [1, 0, 2], [1, 2, 0], [2, 0, 1], [2, 1, 0]].iter().enumerate() {
+                        ordered.push((vec![c[p[0]], c[p[1]], c[p[2]]], pi == 0 || maxe >= 3));
+                    }
+                }
+            }
+        }
+        for (combo, all_modes) in &ordered {
             if !ctx.mine() {
                 continue;
             }
             let first: Vec<&str> = combo.iter().map(|&k| keys[k][0]).collect();
             let any_addr = combo.iter().any(|&k| !addr[k].is_empty());
             for mode in [Mode::Before, Mode::After, Mode::Split] {
-                if mode == Mode::Split && combo.len() == 1 {
+                if mode == Mode::Split && (combo.len() == 1 || !*all_modes) {
                     continue;
                 }
                 ctx.out.evaluations += 1;
